@@ -642,3 +642,58 @@ def d10_8(ctx):
         return [s for _, s in (lst or []) if s.startswith("_cfg[") and any(k in s for k in ("csn", "vid", "vsn"))]
     go, _ = _list_widths(ctx, drv, fo, "forward_open_msg", cfgw)
     ctx.check(triad(go) == triad(got) == ["_cfg['csn']", "_cfg['vid']", "_cfg['vsn']"], ckey(f"{CD}:CIPDriver._forward_close", "triad"), fc, "close names the connection by the same serial/vendor/originator triple as open", "Forward Close does not identify the connection with the triple sent in Forward Open", open=triad(go), close=triad(got))
+
+
+@rule(P, "D10.9", "T-DOM", floor=1)
+def d10_9(ctx):
+    """The identifiers by which the target recognises this client's CIP connection (the configuration values sent in both the
+    Forward Open and the Forward Close) are rewritten only while no connection can be open: every write outside the
+    constructor is dominated by the not-yet-opened side of a test of the driver's opened / connected flag."""
+    drv = ctx.model.cls(f"{CD}:CIPDriver")
+
+    def cfg_keys(fn, ctx_type):
+        out = set()
+        for n in walk(fn):
+            if isinstance(n, ast.Subscript) and isinstance(n.ctx, ctx_type) and attr_path(n.value) == "self._cfg":
+                k = ctx.folder.eval(n.slice, drv.module)
+                if isinstance(k, str):
+                    out.add(k)
+        return out
+
+    fo, fc = drv.methods.get("_forward_open"), drv.methods.get("_forward_close")
+    if fo is None or fc is None:
+        ctx.undecided(ckey(drv.key, "connection-identifiers"), drv.node, "Forward Open / Forward Close builders not found")
+        return
+    ident = cfg_keys(fo, ast.Load) & cfg_keys(fc, ast.Load)
+    n = 0
+    for name, m in drv.methods.items():
+        if name == "__init__":
+            continue
+        g = None
+        for node in walk(m):
+            if not (isinstance(node, ast.Subscript) and isinstance(node.ctx, ast.Store) and attr_path(node.value) == "self._cfg"):
+                continue
+            k = ctx.folder.eval(node.slice, drv.module)
+            if k not in ident:
+                continue
+            n += 1
+            g = g or ctx.cfg(m)
+            st = node
+            while not isinstance(st, ast.stmt):
+                st = getattr(st, "_parent")
+            nodes = g.nodes_of(st)
+            ok = False
+            for t in g.nodes:
+                if t.kind != "test" or not nodes or t.ast is None:
+                    continue
+                neg, e = False, t.ast
+                while isinstance(e, ast.UnaryOp) and isinstance(e.op, ast.Not):
+                    neg, e = not neg, e.operand
+                if attr_path(e) in ("self._connection_opened", "self._target_is_connected", "self.connected"):
+                    # the write must sit on the side where the flag is false
+                    if g.branch_dominates(t, neg, nodes[0]):
+                        ok = True
+            ctx.check(ok, ckey(f"{drv.key}.{name}", f"identifier:{k}"), st, f"`{src(st)}` happens only while the driver is not opened/connected",
+                      f"`{src(st)}` can run while a connection is open (no dominating 'not opened' test): the Forward Close then names a connection the target does not know ({k} differs from the Forward Open) and the target keeps the connection after close()", key=k)
+    if not ident:
+        ctx.undecided(ckey(drv.key, "connection-identifiers"), drv.node, "no configuration value is shared by the Forward Open and Forward Close requests")
